@@ -18,6 +18,7 @@ Case kinds (all JSON-able):
                    'v1' earlier version, 'prime' who cached it, 'mt' mtime kept?, 'junk', 'gone', 'ldr'), optional 'gfile'}
 't' and 'r' cases may carry 'b': 1 - the text is handed to from_string as UTF-8 bytes.
 """
+import gc
 import io
 import itertools
 import linecache
@@ -134,8 +135,8 @@ def regex_shape(pat):
 
 class C16(Property):
     PID = 'C16'
-    QUICK_BUDGET_S = 40
-    THOROUGH_BUDGET_S = 600
+    QUICK_BUDGET_S = 60
+    THOROUGH_BUDGET_S = 900
     RULE = ('a case is (t) a traceback text rendered by the harness from structured data: 0..n frames, each with '
             'file / line number / function / optional source line / optional position-marker line, a type name and '
             'an empty, one-line or multi-line message, with or without the final newline, handed over as str or as '
@@ -159,7 +160,16 @@ class C16(Property):
             'three other exceptions are raised and captured first (ExceptionInfo and print_exception, either first) whose '
             'classes share module and bare name with the last one (nested in other classes / functions), share the '
             'qualified name across modules, are redefined, shadow a builtin, or are the same class object whose '
-            '__module__ / __qualname__ / __name__ is reassigned between the captures. First in the stream: an enumerated family of ~520 small '
+            '__module__ / __qualname__ / __name__ is reassigned between the captures. Round 5: the code\'s file name may end in '
+            '.pyc / .pyo / .PY / .pyw or in the letters c / o, be a pseudo or relative name, hold quotes, spaces, non-ASCII (module '
+            'files on disk may have decoy neighbours whose names differ in the suffix); recursion may go through one line with two call '
+            'sites (entries that differ in tb_lasti only), through a generator expression, through two lambdas on one line, a->b->a; the '
+            'entry points are called in every argument form (keywords, positional, file=None); failing calls may come first; exception '
+            'classes / objects may have unusual __bool__ / __len__ / __eq__ / __hash__; after the observations the caller edits every '
+            'dict, list and Callpoint it was handed and the reports are read again. Every text (t, r) is parsed two or three times, as '
+            'str and as bytes in turn, the caller editing the earlier result in between; a text may come after a history of earlier '
+            'from_string calls (the same text, texts sharing lines with it, failing calls). First in the stream: ~110 texts with '
+            'histories, then an enumerated family of ~870 small '
             'live cases over all of these dimensions; then all texts with <= 2 frames over the option alphabet; then '
             'seeded random texts (non-ASCII paths, quotes, frame-like fragments), adversarial mutations and random '
             'live cases. Non-trivial = (t) at least one frame and the text is in the statement\'s domain, (r) the '
@@ -176,6 +186,12 @@ class C16(Property):
         'bare BaseException such as KeyboardInterrupt); no SyntaxError, '
         'chained causes, notes or exception groups (excluded by the statement)',
         'character classes of re \\d, str.isspace and str.splitlines are regenerated from the running interpreter',
+        'the entry points keep their documented parameter names (from_exc_info(exc_type, exc_value, traceback), '
+        'from_traceback(tb, limit), print_exception(etype, value, tb, limit, file), from_string(tb_str)): they are also called '
+        'by keyword; an exception object whose __bool__ raises is not generated (the traceback module itself fails on it)',
+        'what a caller may do with a value it was handed: overwrite / empty / reorder the dicts, lists and Callpoints of '
+        'to_dict() results, of ParsedException.frames and of a TracebackInfo it does not read again; the next call on the same '
+        'input (same text; same exception through a new object or through an object the caller did not touch) is judged like the first',
         'the reference for a live exception is the traceback module asked about the same traceback object in the same '
         'state of the file system (before or after boltons); sys.tracebacklimit is unset or >= 1 and an explicit '
         'limit of print_exception is None or >= 1 (with no entry to show the traceback module omits the header line, '
@@ -561,8 +577,76 @@ class C16(Property):
         HEADER + '\n  File "a", line 3, in f\n    x\n  [Previous line repeated 5 more times]\nRecursionError: deep',
     ]
 
+    def variant_text(self, case, how):
+        """another traceback text that shares lines with the text of `case` (kind 't')"""
+        fr = [list(f) for f in case['frames']]
+        if how == 'src':        # the same frame lines, other source lines
+            for i, f in enumerate(fr):
+                f[3], f[4] = (None if f[3] is not None and i % 2 else 'other_%d()' % i), None
+        elif how == 'nosrc':
+            for f in fr:
+                f[3], f[4] = None, None
+        elif how == 'path':     # the same source lines under other paths / line numbers
+            for i, f in enumerate(fr):
+                f[0], f[1] = 'elsewhere/' + f[0], '1' + f[1]
+        elif how == 'more':
+            fr = fr + [['z.py', '1', 'z', 'z()', None]] + fr
+        elif how == 'less':
+            fr = fr[:-1]
+        return self.std_text(dict(case, frames=fr, type='Other' if how == 'exc' else case['type'],
+                                  msg='other: msg' if how == 'exc' else case['msg']))
+
+    PRE_HOWS = ['self', 'selfb', 'selfkw', 'src', 'nosrc', 'path', 'more', 'less', 'exc', 'fail', 'fail2', 'nl', 'cut', 'se']
+
+    def pre_item(self, case, how):
+        text = self.std_text(case) if case['k'] == 't' else case['text']
+        if how in ('self', 'selfb', 'selfkw'):
+            return dict({'text': text}, **({'b': 1} if how == 'selfb' else {'kw': 1} if how == 'selfkw' else {}))
+        if how == 'fail':
+            return {'text': 'no traceback here\n' + text}
+        if how == 'fail2':
+            return {'text': '', 'b': 1}
+        if how == 'nl':
+            return {'text': text + '\n'}
+        if how == 'cut':
+            return {'text': text[:max(0, len(text) - 3)]}
+        if how == 'se':
+            return {'text': '\n'.join(text.split('\n')[1:-1] + ['    ^', 'SyntaxError: x'])}
+        if case['k'] == 't':
+            return {'text': self.variant_text(case, how)}
+        return {'text': text.replace('    ', '    other ')}
+
+    def history_family(self):
+        """texts parsed after a history of earlier from_string calls in the same process (the same text, texts that
+        share frame lines / source lines with it, failing calls), every earlier result edited by its caller"""
+        bases = [
+            {'k': 't', 'frames': [['/srv/my dir/main.py', '12', '<module>', 'run(job)', None],
+                                  ['/srv/my dir/worker.py', '40', 'run', 'return step(job)', '           ^^^^^^^^^'],
+                                  ['/srv/my dir/worker.py', '57', 'step', None, None]],
+             'type': 'ValueError', 'msg': 'bad job: id=7\nsecond line', 'nl': 0},
+            {'k': 't', 'frames': [['<string>', '1', '<module>', None, None], ['a.py', '3', 'f', 'f()', None],
+                                  ['a.py', '3', 'f', 'f()', None], ['<string>', '1', '<module>', 'x', None]],
+             'type': 'pkg.E', 'msg': '', 'nl': 1},
+            {'k': 't', 'frames': [], 'type': 'KeyError', 'msg': "'k'", 'nl': 0},
+            {'k': 't', 'frames': [['\u00e9.py', '7', '<lambda>', 'x = "a: b"', None]], 'type': 'E', 'msg': 'm', 'nl': 0, 'b': 1},
+            {'k': 'r', 'text': '  File "s.py", line 9\n    x = (\n        ^\nSyntaxError: invalid syntax'},
+            {'k': 'r', 'text': HEADER + '\n  File "a.py", line 3, in f\n    foo()\n  File "b.py", line 4, in g'},
+        ]
+        for base in bases:
+            yield base
+            for how in self.PRE_HOWS:
+                yield dict(base, pre=[self.pre_item(base, how)])
+            yield dict(base, pre=[self.pre_item(base, h) for h in ('fail', 'self', 'src', 'selfb')])
+            yield dict(base, pre=[self.pre_item(base, h) for h in ('src', 'self', 'self', 'path', 'fail2')])
+
+    def with_history(self, case):
+        rng = self.rng
+        return dict(case, pre=[self.pre_item(case, rng.choice(self.PRE_HOWS)) for _ in range(rng.randint(1, 3))])
+
     def cases(self, budget_s):
         rng = self.rng
+        for c in self.history_family():
+            yield c
         for t in self.FIXED_RAW:
             yield {'k': 'r', 'text': t}
         for c in self.live_family():
@@ -576,11 +660,12 @@ class C16(Property):
             c = self.random_text_case()
             r = rng.random()
             if r < 0.55:
-                yield c
+                pass
             elif r < 0.9:
-                yield dict({'k': 'r', 'text': self.mutate_text(self.std_text(c))}, **({'b': 1} if c.get('b') else {}))
+                c = dict({'k': 'r', 'text': self.mutate_text(self.std_text(c))}, **({'b': 1} if c.get('b') else {}))
             else:
-                yield {'k': 'r', 'text': self.se_text() if rng.random() < 0.6 else self.mutate_text(self.se_text())}
+                c = {'k': 'r', 'text': self.se_text() if rng.random() < 0.6 else self.mutate_text(self.se_text())}
+            yield self.with_history(c) if i % 12 == 5 else c
             if i % live_every == 0:
                 yield self.random_live_case(big=self.thorough and i % (live_every * 10) == 0)
 
@@ -590,9 +675,10 @@ class C16(Property):
             c = self.random_text_case()
             r = rng.random()
             if r < 0.5:
-                yield c
+                yield self.with_history(c) if rng.random() < 0.3 else c
             elif r < 0.8:
-                yield {'k': 'r', 'text': self.mutate_text(self.std_text(c))}
+                c = {'k': 'r', 'text': self.mutate_text(self.std_text(c))}
+                yield self.with_history(c) if rng.random() < 0.3 else c
             else:
                 yield self.random_live_case(big=rng.random() < 0.1, session=True)
 
@@ -600,8 +686,18 @@ class C16(Property):
     LIVE_FILES = ['/bv/c16/m%d.py', '/bv c16/d\u00e9 %d/mod.py', 'rel%d.py', '<bv-gen-%d>', 'C:\\bv\\m%d.py',
                   '/bv/"q%d", line 5, in z.py']
     DISK_FILES = ['disk%d.py', 'd \u00e9 %d/mod.py', 'sub%d/a"b, line 5, in z.py']
+    # unusual shapes of a code object's file name: names of bytecode files (a sourceless module compiled with
+    # py_compile(..., dfile='x.pyc'), compile(src, 'x.pyc', 'exec')), other suffixes and cases, names that only end in
+    # the letters c / o, pseudo names, relative names, spaces / quotes / non-ASCII, a bare number
+    ODD_FILES = ['/bv/c16/m%d.pyc', 'job%d.pyo', '/bv/c16/M%d.PY', '/bv/c16/m%d.PYC', 'w%d.pyw', '/bv/c16/m%dc', '/bv/c16/mo%do',
+                 '/bv/c16/m%d.pyco', '/bv/c16/m%d.py.pyc', '/bv/c16/m%d.pyc.py', '<m%d.pyc>', '<frozen bv%d>', './rel%d.py',
+                 '../up%d.pyc', "/bv/it's %d.py", '/bv/c16/m%d.py ', ' m%d.py', '%d', '.pyc%d', 'm%d.pyc\u00e9', '/bv/\u65e5%d.pyo',
+                 '/bv/c16/m%d.p', 'x%d.so', '/bv/c16/m%d.py?x=.pyc']
+    ODD_DISK_FILES = ['disk%d.pyc', 'opt%d.pyo', 'DISK%d.PY', 'diskc%dc']
     LIVE_KINDS = ['call', 'call', 'lambda', 'method', 'gen', 'exec', 'eval', 'rec', 'multi', 'comp', 'deco', 'prop',
-                  'reraise', 'reraise', 'async', 'rec', 'rec2', 'recalt']
+                  'reraise', 'reraise', 'async', 'rec', 'rec2', 'recalt', 'rec3', 'rec3h', 'recgx', 'mutlam', 'mutual']
+    # link kinds that produce runs of entries: 'n' = number of recursive calls
+    REC_KINDS = ('rec', 'rec2', 'recalt', 'rec3', 'rec3h', 'recgx', 'mutlam', 'mutual')
     # how an intermediate function hands an exception it caught on to its caller
     REHOW = ['as_e', 'bare', 'wtb', 'trim', 'after', 'nested', 'loop', 'throw', 'faketb', 'finally']
     BUILTIN_EXC = ['ValueError', 'KeyError', 'TypeError', 'RuntimeError', 'OSError', 'ZeroDivisionError',
@@ -625,7 +721,9 @@ class C16(Property):
     def random_disk(self, m, i):
         rng = self.rng
         m['reg'] = 'disk'
-        m['file'] = rng.choice(self.DISK_FILES) % i
+        m['file'] = rng.choice(self.DISK_FILES + self.ODD_DISK_FILES) % i
+        if rng.random() < 0.3:
+            m['decoy'] = 1
         m['v1'] = rng.choice(self.V1S)
         m['prime'] = rng.choice(self.PRIMES)
         m['mt'] = 'same' if rng.random() < 0.25 else 'differ'
@@ -639,8 +737,10 @@ class C16(Property):
         rng = self.rng
         kind = rng.choice(self.LIVE_KINDS)
         ln = {'m': rng.randrange(nm), 'kind': kind}
-        if kind in ('rec', 'rec2', 'recalt'):
+        if kind in self.REC_KINDS:
             ln['n'] = rng.choice([0, 1, 2, 3, 4, 5, 9]) if not big else rng.choice([2, 3, 4, 40])
+        if kind == 'eval' and rng.random() < 0.5:
+            ln['cf'] = rng.choice(self.ODD_FILES) % rng.randrange(3)
         if kind in ('call', 'lambda', 'exec'):
             ln['pad'] = rng.choice(['    ', '  ', '\t', '        '])
             ln['tail'] = rng.choice(['', '', '  # c', '   ', ' \t'])
@@ -655,7 +755,7 @@ class C16(Property):
         nm = rng.randint(1, 3)
         mods = []
         for i in range(nm):
-            m = {'file': rng.choice(self.LIVE_FILES) % i,
+            m = {'file': rng.choice(self.LIVE_FILES if rng.random() < 0.6 else self.ODD_FILES) % i,
                  'name': rng.choice(['bvm%d' % i, 'pkg.bvm%d' % i, '__main__', 'builtins']) if rng.random() < 0.5
                  else rng.choice(self.MOD_NAMES),
                  'reg': rng.choice(['cache', 'cache', 'loader', 'none'])}
@@ -671,8 +771,10 @@ class C16(Property):
             mods.append(m)
         depth = rng.randint(0, 6) if not big else rng.randint(10, 30)
         links = [self.random_link(nm, big) for _ in range(depth)]
-        kind = rng.choice(['builtin', 'builtin', 'top', 'top', 'nested', 'inner', 'strsub', 'modattr', 'badstr'])
+        kind = rng.choice(['builtin', 'builtin', 'top', 'top', 'nested', 'inner', 'strsub', 'modattr', 'badstr', 'odd'])
         exc = {'kind': kind, 'm': rng.randrange(nm), 'args': rng.choice(self.LIVE_ARGS)}
+        if kind == 'odd':
+            exc['odd'] = rng.choice(self.ODDS)
         if kind == 'badstr':
             exc['inner'] = rng.choice(['ZeroDivisionError', 'ValueError', 'TypeError', 'Exception', 'RecursionError'])
         if kind == 'builtin':
@@ -690,6 +792,12 @@ class C16(Property):
             case['skip'] = rng.choice([1, 1, 2, 3])
         if rng.random() < 0.3:
             case['seq'] = rng.choice(['dict', 'build'])
+        if rng.random() < 0.3:
+            case['af'] = rng.choice(['kw', 'pos', 'stderr'])
+        if rng.random() < 0.15:
+            case['pf'] = 1
+        if rng.random() < 0.12:
+            case['late'] = 1
         if rng.random() < (0.5 if session else 0.2):
             case['exc'] = dict(self.random_capture(nm, False), m=exc['m'])
             case['prior'] = [self.random_capture(nm, True) for _ in range(rng.randint(1, 3))]
@@ -708,6 +816,49 @@ class C16(Property):
         pin = {'file': '/bv/c16/m0.py', 'name': 'bvm0', 'reg': 'cache'}
         call = {'m': 0, 'kind': 'call'}
         lam = {'m': 0, 'kind': 'lambda'}
+        # recursion through one line with several call sites / several code objects on it; mutual recursion: run
+        # lengths around the interpreter's cut-off of 3 (n recursive calls = n + 1 entries)
+        for kind in ('rec3', 'rec3h', 'recgx', 'mutlam', 'mutual'):
+            for n in (2, 3, 4, 5, 8):
+                rec = {'m': 0, 'kind': kind, 'n': n}
+                yield case([pin], [rec])
+                yield case([pin], [call, rec, lam], order='s', limit=n + 1)
+            yield case([pin], [{'m': 0, 'kind': kind, 'n': 7}, {'m': 0, 'kind': kind, 'n': 4}], tblimit=9)
+            yield case([pin], [{'m': 0, 'kind': kind, 'n': 6}], skip=2, seq='build')
+        # unusual shapes of the code's file name
+        for j, f in enumerate(self.ODD_FILES):
+            for reg in ('cache', 'none', 'loader'):
+                yield case([{'file': f % 0, 'name': 'bvm0', 'reg': reg}], [call, lam], order='bs'[j % 2])
+            yield case([pin], [call, {'m': 0, 'kind': 'eval', 'cf': f % 0}, lam], order='sb'[j % 2])
+            yield case([pin, {'file': f % 1, 'name': 'bvm1', 'reg': 'cache'}], [{'m': 1, 'kind': 'rec', 'n': 4}, call],
+                       exc={'kind': 'top', 'm': 1, 'args': ['a: b']})
+        for f in self.ODD_DISK_FILES + self.DISK_FILES[:1]:
+            for decoy in (0, 1):
+                for prime in ('none', 'getlines'):
+                    yield case([{'file': f % 0, 'name': 'plug', 'reg': 'disk', 'v1': 'retag' if prime != 'none' else 'none',
+                                 'prime': prime, 'mt': 'differ', 'gone': 0, 'ldr': 0, 'decoy': decoy}], [call, lam])
+        # every argument form of the entry points; failing calls first; exception objects / classes with unusual
+        # special methods
+        for af in ('kw', 'pos', 'stderr'):
+            for limit in (None, 1):
+                yield case([pin], [call, lam], limit=limit, af=af)
+                yield case([pin], [call], limit=limit, af=af, pf=1, order='s')
+        # object lifetime: only the TracebackInfo is kept, everything else goes away before it is first read
+        for reg in ('cache', 'loader', 'none', 'loader_none'):
+            for order in 'bs':
+                yield case([{'file': 'rel0.py', 'name': 'bvm0', 'reg': reg}], [call, lam], order=order, late=1)
+        for v1, prime in (('none', 'none'), ('retag', 'getlines'), ('shift', 'boltons'), ('grow', 'std')):
+            for ldr in (0, 1):
+                yield case([{'file': 'disk0.py', 'name': 'plug', 'reg': 'disk', 'v1': v1, 'prime': prime, 'mt': 'differ', 'gone': 0,
+                             'ldr': ldr}], [call, {'m': 0, 'kind': 'rec3', 'n': 4}], late=1)
+        for limit in (1000, 999, 1001):     # the default limit itself
+            yield case([pin], [call, lam], limit=limit)
+            yield case([pin], [call, lam], tblimit=limit)
+        for odd in self.ODDS:
+            for args in ([], ['x']):
+                yield case([pin], [call], exc={'kind': 'odd', 'm': 0, 'args': args, 'odd': odd})
+            yield case([pin], [], exc={'kind': 'odd', 'm': 0, 'args': ['x'], 'odd': odd},
+                       prior=[{'kind': 'same', 'args': ['y: z'], 'via': 'ep'}, {'kind': 'odd', 'odd': odd, 'args': ['w'], 'via': 'pe'}])
         for how in self.REHOW:
             for n in ([0, 1, 2, 3, 4] if how == 'loop' else [None]):
                 rr = {'m': 0, 'kind': 'reraise', 'how': how}
@@ -796,7 +947,12 @@ class C16(Property):
         for c in self.session_family(case, pin, call):
             yield c
 
+    # (a __bool__ that raises is not generated: the traceback module itself fails on it, there is no reference)
+    ODDS = ['falsy', 'eqall', 'unhash', 'meta']
+
     SESSION_PAIRS = [
+        ({'kind': 'odd', 'odd': 'meta', 'cname': 'MetaA'}, {'kind': 'odd', 'odd': 'meta', 'cname': 'MetaB'}),   # the classes compare equal
+        ({'kind': 'odd', 'odd': 'eqall', 'cname': 'EqA'}, {'kind': 'odd', 'odd': 'eqall', 'cname': 'EqB'}),   # the instances compare equal
         # (earlier capture, later capture): what the two classes have in common
         ({'kind': 'inner', 'outer': 'Lexer', 'cname': 'Error'}, {'kind': 'inner', 'outer': 'Parser', 'cname': 'Error'}),
         ({'kind': 'nested', 'outer': 'mk_a', 'cname': 'LocalErr'}, {'kind': 'nested', 'outer': 'mk_b', 'cname': 'LocalErr'}),
@@ -840,8 +996,10 @@ class C16(Property):
 
     def random_capture(self, nm, prior):
         rng = self.rng
-        kind = rng.choice(['builtin', 'top', 'nested', 'inner', 'strsub', 'modattr', 'badstr'] + (['same', 'same'] if prior else []))
+        kind = rng.choice(['builtin', 'top', 'nested', 'inner', 'strsub', 'modattr', 'badstr', 'odd'] + (['same', 'same'] if prior else []))
         c = {'kind': kind, 'args': rng.choice(self.LIVE_ARGS)}
+        if kind == 'odd':
+            c['odd'] = rng.choice(self.ODDS)
         if kind == 'builtin':
             c['name'] = rng.choice(self.BUILTIN_EXC)
         elif kind != 'same':
@@ -895,6 +1053,20 @@ class C16(Property):
             L += ['class %s(Exception):' % cn, '    def __str__(self):',
                   '        raise %s("str() of the exception raises")' % exc.get('inner', 'ZeroDivisionError')]
             return cn
+        if k == 'odd':
+            # classes / instances with unusual __bool__ / __len__ / __eq__ / __hash__ (what a memo or a truth test
+            # inside the reporting code would stumble over)
+            cn, o = exc.get('cname', 'OddErr'), exc.get('odd', 'falsy')
+            if o == 'meta':
+                L += ['class OddMeta%s(type):' % tag, '    def __eq__(a, b):', '        return True', '    def __hash__(a):',
+                      '        return 7', 'class %s(Exception, metaclass=OddMeta%s):' % (cn, tag), '    pass']
+            else:
+                L += ['class %s(Exception):' % cn] + {
+                    'falsy': ['    def __bool__(self):', '        return False', '    def __len__(self):', '        return 0'],
+                    'eqall': ['    def __eq__(self, other):', '        return True', '    def __hash__(self):', '        return 1'],
+                    'unhash': ['    __hash__ = None'],
+                }[o]
+            return cn
         if k == 'modattr':
             cn = exc.get('cname', 'ModErr')
             L += ['class %s(Exception):' % cn, '    pass', '%s.__module__ = %r' % (cn, exc['mod'])]
@@ -925,7 +1097,7 @@ class C16(Property):
                 L += ['def fn%d():' % i, '%sexec("R[%d]()", {"R": R})%s' % (pad, i + 1, tail), 'R[%d] = fn%d' % (i, i)]
             elif kind == 'eval':
                 L += ['def fn%d():' % i,
-                      '    return eval(compile("\\n\\n" + "R[%d]()", "<bv eval %d>", "eval"), {"R": R})' % (i + 1, i),
+                      '    return eval(compile("\\n\\n" + "R[%d]()", %r, "eval"), {"R": R})' % (i + 1, ln.get('cf', '<bv eval %d>' % i)),
                       'R[%d] = fn%d' % (i, i)]
             elif kind == 'rec':
                 L += ['def fn%d(n=%d):' % (i, ln.get('n', 1)), '    if n:', '        return fn%d(n - 1)' % i,
@@ -934,6 +1106,26 @@ class C16(Property):
                 # recursion through a def and a lambda on ONE line: consecutive entries share file and line, not the name
                 L += ['def fn%d(n=%d): return (lambda: fn%d(n - 1) if n else %s())()' % (i, ln.get('n', 1), i, nxt),
                       'R[%d] = fn%d' % (i, i)]
+            elif kind in ('rec3', 'rec3h'):
+                # recursion through ONE line with two call sites on it, taken in turn ('rec3') or the first for the
+                # outer half of the run and the second for the inner half ('rec3h'): consecutive entries share file,
+                # line and name and differ only in the instruction offset (tb_lasti)
+                n0 = ln.get('n', 1)
+                cond = 'n % 2' if kind == 'rec3' else 'n > %d' % (n0 // 2)
+                L += ['def fn%d(n=%d): return fn%d(n - 1) if %s else (fn%d(n - 1) if n else %s())' % (i, n0, i, cond, i, nxt),
+                      'R[%d] = fn%d' % (i, i)]
+            elif kind == 'recgx':
+                # recursion through a generator expression on the line of the def
+                L += ['def fn%d(n=%d): return next(fn%d(n - 1) for _ in (1,)) if n else %s()' % (i, ln.get('n', 1), i, nxt),
+                      'R[%d] = fn%d' % (i, i)]
+            elif kind == 'mutlam':
+                # two lambdas on ONE line calling each other: two code objects, the same file, line and name
+                L += ['A%d = lambda n=%d: B%d(n - 1) if n else %s(); B%d = lambda n=0: A%d(n - 1) if n else %s()'
+                      % (i, ln.get('n', 1), i, nxt, i, i, nxt), 'R[%d] = A%d' % (i, i)]
+            elif kind == 'mutual':
+                # a -> b -> a, each call on one line
+                L += ['def fa%d(n=%d): return fb%d(n - 1) if n else %s()' % (i, ln.get('n', 1), i, nxt),
+                      'def fb%d(n=0): return fa%d(n - 1) if n else %s()' % (i, i, nxt), 'R[%d] = fa%d' % (i, i)]
             elif kind == 'recalt':
                 # recursion from two lines in turn: consecutive entries share file and name, not the line
                 L += ['def fn%d(n=%d):' % (i, ln.get('n', 1)), '    if n % 2:', '        return fn%d(n - 1)' % i, '    if n:',
@@ -1064,9 +1256,12 @@ class C16(Property):
             else:
                 paths.append(m['file'])
 
+        self._globals = []
+
         def load(texts, R):
             for m, src, path in zip(mods, texts, paths):
                 g = {'__name__': m['name'], 'R': R}
+                self._globals.append(g)
                 if m.get('gfile'):
                     g['__file__'] = m['gfile']      # code compiled under another name than the module's __file__
                 reg = m['reg']
@@ -1089,6 +1284,15 @@ class C16(Property):
             os.utime(path, (t, t))
 
         disk = [i for i, m in enumerate(mods) if m['reg'] == 'disk']
+        for i in disk:
+            if mods[i].get('decoy'):
+                # neighbours of the module file whose names differ from it in the suffix only: another text
+                p = paths[i]
+                stem = os.path.splitext(p)[0]
+                for q in (p[:-1], p + 'c', p + 'o', stem + '.py', stem + '.pyc', stem + '.PY', stem):
+                    if q != p and os.path.basename(q):
+                        with open(q, 'w', encoding='utf-8') as f:
+                            f.write('# decoy line\n' * 60)
         if disk:
             vers = {i: self._versions(srcs[i], mods[i].get('v1', 'none')) for i in disk}
             texts1 = list(srcs)
@@ -1129,6 +1333,17 @@ class C16(Property):
         R = {}
         load(srcs, R)
         info = cur = None
+        if case.get('pf'):
+            # earlier calls that fail (no exception is being handled; no traceback text)
+            for bad in (lambda: tbutils.TracebackInfo.from_traceback(), lambda: tbutils.ExceptionInfo.from_current(),
+                        lambda: tbutils.ParsedException.from_string('not a traceback'),
+                        lambda: tbutils.TracebackInfo.from_traceback(tb=None, limit=0),
+                        lambda: tbutils.print_exception(None, None, None, file=io.StringIO())):
+                try:
+                    with time_limit(10):
+                        bad()
+                except (Exception, CaseTimeout):
+                    pass
         # the earlier captures of the session (exception part only: nothing here looks a source line up)
         self._prior_obs = []
         for j, pr in enumerate(case.get('prior') or []):
@@ -1300,7 +1515,7 @@ class C16(Property):
             fr = t.tb_frame
             co = fr.f_code
             walk.append([co.co_filename, t.tb_lineno, co.co_name, fids.setdefault(id(fr), len(fids)),
-                         self._look(co.co_filename, t.tb_lineno, fr.f_globals)])
+                         self._look(co.co_filename, t.tb_lineno, fr.f_globals), max(t.tb_lasti, 0)])
             t = t.tb_next
         return walk
 
@@ -1348,6 +1563,43 @@ class C16(Property):
             elif not mark:
                 return False
         return i == len(lines)
+
+    @staticmethod
+    def _spoil_live(*values):
+        """what a caller may do with the values boltons handed it: empty / reorder / overwrite dicts and lists (also
+        the nested ones), overwrite the attributes of the Callpoints of a TracebackInfo and empty its frames list"""
+        def spoil(v, depth=0):
+            if depth > 6:
+                return
+            if isinstance(v, dict):
+                for x in list(v.values()):
+                    spoil(x, depth + 1)
+                for key in list(v):
+                    if not isinstance(v[key], (dict, list)):
+                        v[key] = 'spoiled' if isinstance(v[key], str) else 0
+                v['spoiled'] = True
+            elif isinstance(v, list):
+                for x in v:
+                    spoil(x, depth + 1)
+                v.reverse()
+                if v:
+                    v.pop()
+                v.append({'module_path': 'spoiled.py', 'lineno': 0, 'func_name': 'spoiled', 'line': 'spoiled()', 'lasti': 0,
+                          'module_name': 'spoiled'})
+            elif hasattr(v, 'frames') and isinstance(v.frames, list):
+                for cp in v.frames:
+                    for attr, val in (('module_path', 'spoiled.py'), ('lineno', 0), ('func_name', 'spoiled'), ('line', 'spoiled()'),
+                                      ('lasti', 0), ('module_name', 'spoiled')):
+                        try:
+                            setattr(cp, attr, val)
+                        except Exception:
+                            pass
+                del v.frames[:]
+        for v in values:
+            try:
+                spoil(v)
+            except Exception:
+                pass
 
     def run_live(self, case):
         from boltons import tbutils
@@ -1433,9 +1685,38 @@ class C16(Property):
                         # to_dict; 'dict': to_dict before anything was formatted; 'build': all objects built first,
                         # then asked last-built first - instances must not share state)
                         seq = case.get('seq', 'fmt')
-                        ei = tbutils.ExceptionInfo.from_exc_info(et, ev, tb)
+                        af = case.get('af')
+                        if af == 'kw':
+                            mk_ei = lambda: tbutils.ExceptionInfo.from_exc_info(exc_type=et, exc_value=ev, traceback=tb)
+                            mk_tbi = lambda: tbutils.TracebackInfo.from_traceback(tb=tb, limit=limit)
+                        elif af == 'pos':
+                            mk_ei = lambda: tbutils.ExceptionInfo.from_exc_info(et, ev, tb)
+                            mk_tbi = lambda: tbutils.TracebackInfo.from_traceback(tb, limit)
+                        else:
+                            mk_ei = lambda: tbutils.ExceptionInfo.from_exc_info(et, ev, tb)
+                            mk_tbi = lambda: tbutils.TracebackInfo.from_traceback(tb, limit=limit)
+
+                        def do_print(lim):
+                            buf = io.StringIO()
+                            if af == 'kw':
+                                tbutils.print_exception(etype=et, value=ev, tb=tb, limit=lim, file=buf)
+                            elif af == 'pos':
+                                tbutils.print_exception(et, ev, tb, lim, buf)
+                            elif af == 'stderr':
+                                old_err, sys.stderr = sys.stderr, buf
+                                try:
+                                    if lim is None:
+                                        tbutils.print_exception(et, ev, tb)
+                                    else:
+                                        tbutils.print_exception(et, ev, tb, limit=lim, file=None)
+                                finally:
+                                    sys.stderr = old_err
+                            else:
+                                tbutils.print_exception(et, ev, tb, limit=lim, file=buf)
+                            return buf.getvalue()
+                        ei = mk_ei()
                         if seq == 'build':
-                            tbi = tbutils.TracebackInfo.from_traceback(tb, limit=limit)
+                            tbi = mk_tbi()
                             tbutils.TracebackInfo.from_traceback(tb, limit=1)
                             tbutils.ExceptionInfo.from_exc_info(KeyError, KeyError('other'), tb.tb_next or tb)
                             obs['tbi'] = tbi.get_formatted()
@@ -1447,7 +1728,7 @@ class C16(Property):
                         obs['ei_frames'] = [[f['module_path'], f['lineno'], f['func_name'], f['line']]
                                             for f in d['exc_tb']['frames']]
                         if seq != 'build':
-                            tbi = tbutils.TracebackInfo.from_traceback(tb, limit=limit)
+                            tbi = mk_tbi()
                         td = tbi.to_dict() if seq == 'dict' else None
                         obs['tbi'] = tbi.get_formatted()
                         obs['tbi_str'] = str(tbi)
@@ -1455,10 +1736,8 @@ class C16(Property):
                                              for f in (td or tbi.to_dict())['frames']]
                         obs['tbi_n'] = len(tbi)
                         for key, lim in (('print', None), ('print_lim', limit)):
-                            buf = io.StringIO()
                             try:
-                                tbutils.print_exception(et, ev, tb, limit=lim, file=buf)
-                                obs[key] = buf.getvalue()
+                                obs[key] = do_print(lim)
                             except Exception as e:
                                 obs[key] = None
                                 obs[key + '_exc'] = exc_name(e)
@@ -1474,6 +1753,36 @@ class C16(Property):
                         cei = tbutils.ContextualExceptionInfo.from_exc_info(et, ev, tb)
                         obs['cei'] = cei.get_formatted()
                         obs['cei_frames'] = frames_of(cei.tb_info)
+                        # --- the caller edits every mutable value it was handed - the dicts of to_dict(), the frames
+                        # list of the TracebackInfo and the Callpoints in it - and asks again: the object it did not
+                        # touch, and new objects built from the same exception, must say what they said before
+                        re_ = []
+
+                        def dict_frames(x):
+                            return [[f['module_path'], f['lineno'], f['func_name'], f['line']] for f in x]
+
+                        def reread(label, got, want):
+                            if got != want:
+                                re_.append([label, repr(got)[:300], repr(want)[:300]])
+                        self._spoil_live(d, td, tbi, tbi.to_dict(), cei.to_dict(), cei.tb_info)
+                        reread('ExceptionInfo.get_formatted() of the untouched object', ei.get_formatted(), obs['ei'])
+                        reread('ExceptionInfo.to_dict() of the untouched object', dict_frames(ei.to_dict()['exc_tb']['frames']),
+                               obs['ei_frames'])
+                        tbi2 = mk_tbi()
+                        reread('a second TracebackInfo.from_traceback(): get_formatted()', tbi2.get_formatted(), obs['tbi'])
+                        reread('a second TracebackInfo.from_traceback(): to_dict()', dict_frames(tbi2.to_dict()['frames']), obs['tbi_frames'])
+                        self._spoil_live(ei.to_dict(), None, ei.tb_info, tbi2.to_dict(), None, tbi2)
+                        ei.exc_type, ei.exc_msg = 'Spoiled', 'by the caller'
+                        ei2 = mk_ei()
+                        reread('a second ExceptionInfo.from_exc_info(): get_formatted()', ei2.get_formatted(), obs['ei'])
+                        reread('a second ExceptionInfo.from_exc_info(): to_dict()', dict_frames(ei2.to_dict()['exc_tb']['frames']),
+                               obs['ei_frames'])
+                        reread('a second ExceptionInfo.from_exc_info(): type, message', [ei2.exc_type, ei2.exc_msg],
+                               [obs['ei_type'], obs['ei_msg']])
+                        if obs.get('print') is not None:
+                            reread('a second print_exception()', do_print(None), obs['print'])
+                        if re_:
+                            obs['re'] = re_
                 except CaseTimeout:
                     obs['exc'] = 'CaseTimeout'
                 except Exception as e:
@@ -1497,9 +1806,31 @@ class C16(Property):
                     obs['exc'] = 'CaseTimeout'
                 except Exception as e:
                     obs['exc'] = exc_name(e)
+            if case.get('late') and 'ei' in obs and 'exc' not in obs:
+                # object lifetime: an ExceptionInfo is built and nothing of it is read; only its TracebackInfo is kept;
+                # the exception, the traceback, its frames and the harness's references to the program's modules go away; then the
+                # kept object is asked for its text
+                try:
+                    with time_limit(10):
+                        late = tbutils.ExceptionInfo.from_exc_info(et, ev, tb)
+                        keep = late.tb_info
+                        del late
+                        info = et = ev = tb = cur = None
+                        self._globals = []      # (dropped, not emptied: what boltons still refers to stays intact)
+                        gc.collect()
+                        for m in case['mods']:      # nothing is cached for sources reachable only through a loader
+                            if m['reg'] not in ('cache', 'disk'):
+                                linecache.cache.pop(m['file'], None)
+                        obs['late'] = keep.get_formatted()
+                        obs['late_frames'] = [[f['module_path'], f['lineno'], f['func_name'], f['line']] for f in keep.to_dict()['frames']]
+                except CaseTimeout:
+                    obs['late_exc'] = 'CaseTimeout'
+                except Exception as e:
+                    obs['late_exc'] = exc_name(e)
             return obs
         finally:
             info = et = ev = tb = cur = None
+            self._globals = []
             if had_limit:
                 sys.tracebacklimit = old_limit
             elif hasattr(sys, 'tracebacklimit'):
@@ -1527,11 +1858,43 @@ class C16(Property):
             return obs
         from boltons.tbutils import ParsedException
         text = self.std_text(case) if k == 't' else case['text']
+        forms = [text, text.encode('utf-8')]
         if case.get('b'):
-            text = text.encode('utf-8')      # the documented other form of the argument: the text as UTF-8 bytes
+            forms.reverse()                  # the documented other form of the argument: the text as UTF-8 bytes
+        # what happened in the process before the judged call: other texts parsed (texts sharing frame lines with this
+        # one, the very same text, calls that fail), every result edited by its caller
+        for pre in case.get('pre') or []:
+            try:
+                with time_limit(10):
+                    arg = pre['text'].encode('utf-8') if pre.get('b') else pre['text']
+                    self._spoil_pe(ParsedException.from_string(tb_str=arg) if pre.get('kw') else ParsedException.from_string(arg))
+            except (Exception, CaseTimeout):
+                pass
+        obs = self._parse_once(ParsedException, forms[0])
+        # the caller edits what it was handed (the frames list, the dicts in it, the to_dict() copy), then the same
+        # text is parsed again: every parse must say what the TEXT says
+        first = self._render_pe(obs)
+        n = 1
+        # (the second parse in the same or in the other form in turn; a third one, in the form not yet repeated, for
+        # cases with a history)
+        again = [forms[len(text) % 2]] + ([forms[1 - len(text) % 2]] if case.get('pre') else [])
+        for form in again:
+            self._spoil_pe(self.__dict__.pop('_last_pe', None))
+            o = self._parse_once(ParsedException, form)
+            n += 1
+            if self._render_pe(o) != first:
+                obs['again'] = o
+                obs['again_no'] = n
+                break
+        self._spoil_pe(self.__dict__.pop('_last_pe', None))
+        return obs
+
+    def _parse_once(self, ParsedException, arg):
+        self._last_pe = None
         try:
             with time_limit(10):
-                pe = ParsedException.from_string(text)
+                pe = ParsedException.from_string(arg)
+                self._last_pe = pe
                 obs = {'frames': [[f.get('filepath'), f.get('lineno'), f.get('funcname'), f.get('source_line')]
                                   for f in pe.frames], 'type': pe.exc_type, 'msg': pe.exc_msg}
                 try:
@@ -1547,6 +1910,32 @@ class C16(Property):
             return {'exc': 'ValueError'}
         except Exception as e:
             return {'exc': exc_name(e)}
+
+    @staticmethod
+    def _spoil_pe(pe):
+        """what a caller may do with a ParsedException it was handed: shorten the paths for display, blank the source
+        lines, add keys, reorder / drop / add frames, empty the to_dict() copy, rename the exception.  Only ever
+        applied to RETURNED objects"""
+        if pe is None:
+            return
+        try:
+            d = pe.to_dict()
+            dicts = [f for f in list(pe.frames) + list(d.get('frames') or []) if isinstance(f, dict)]
+            for f in dicts:
+                for key in list(f):
+                    v = f[key]
+                    f[key] = os.path.basename(v)[:12].rstrip('~') + '~' if key == 'filepath' and isinstance(v, str) else ''
+                f['spoiled'] = True
+            for l in (pe.frames, d.get('frames')):
+                if isinstance(l, list):
+                    l.reverse()
+                    if l:
+                        l.pop()
+                    l.append({'filepath': 'spoiled.py', 'lineno': '0', 'funcname': 'spoiled', 'source_line': 'spoiled()'})
+            d.clear()
+            pe.exc_type, pe.exc_msg = 'Spoiled', 'by the caller'
+        except Exception:
+            pass
 
     # ------------------------------------------------------------------ model line / canonical rendering
     def line(self, case):
@@ -1567,14 +1956,14 @@ class C16(Property):
             pri = ';'.join('%s:%s' % (tt(o['attrs']), mt(o)) for o in obs.get('prior') or []) or '-'
             toks = ['L', 'n' if lim is None else str(lim), 'n' if tl is None else str(tl), tt(obs['attrs']),
                     mt(obs), pri]
-            for fn, ln, name, fid, look in obs['walk']:
+            for fn, ln, name, fid, look, lasti in obs['walk']:
                 if look is None:
                     return None
                 c, d, l = look
                 ct = 'a' if c[0] == 'a' else '%s:%s' % (c[0], hx(c[1])) if c[0] in 'zp' else 's:%d:%d:%s' % (c[1], c[2], hx(c[3]))
                 dt = 'n' if d[0] == 'n' else 'y:%d:%d:%s' % (d[1], d[2], hx(d[3]))
                 lt = 'n' if l[0] == 'n' else 'y:' + hx(l[1])
-                toks.append(','.join([hx(fn), str(ln), hx(name), str(fid), ct, dt, lt]))
+                toks.append(','.join([hx(fn), str(ln), hx(name), str(fid), ct, dt, lt, str(lasti)]))
             return ' '.join(toks)
         if k == 'r':
             return 'T ' + hx(case['text'])
@@ -1582,6 +1971,19 @@ class C16(Property):
         for file, lineno, func, src, anchor in case['frames']:
             toks.append(','.join([hx(file), hx(lineno), hx(func), hx(src or ''), '!' if anchor is None else hx(anchor)]))
         return ' '.join(toks)
+
+    @staticmethod
+    def _render_pe(obs):
+        if 'exc' in obs:
+            return 'err ' + obs['exc']
+        def h(x):
+            return '!' if x is None else hx(x if isinstance(x, str) else str(x))
+        fr = ' '.join(','.join(h(x) for x in f) for f in obs['frames']) or '-'
+        # to_string() of frames read from the SyntaxError form (no function name) is outside the statement
+        # (today: KeyError): whatever it does is accepted, on both sides
+        s = '~' if any(f[2] is None for f in obs['frames']) else hx(obs['str']) if 'str' in obs else 'X' + obs['str_exc']
+        # ParsedException.source_file is not something the statement speaks about: not compared
+        return 'ok n=%d %s | %s %s | %s' % (len(obs['frames']), fr, hx(obs['type']), hx(obs['msg']), s)
 
     def render(self, case, obs):
         k = case['k']
@@ -1596,17 +1998,9 @@ class C16(Property):
             return 'B=%s T=%s S=%s P=%s Q=%s N=%d F=%s Y=%s' % (
                 hx(obs['ei']), hx(obs['tbi']), hx(obs['std']), hp(obs['print'], 'print'),
                 hp(obs['print_lim'], 'print_lim'), obs['std_lim_n'], fr, ys)
-        if 'exc' in obs:
-            out = 'err ' + obs['exc']
-        else:
-            def h(x):
-                return '!' if x is None else hx(x if isinstance(x, str) else str(x))
-            fr = ' '.join(','.join(h(x) for x in f) for f in obs['frames']) or '-'
-            # to_string() of frames read from the SyntaxError form (no function name) is outside the statement
-            # (today: KeyError): whatever it does is accepted, on both sides
-            s = '~' if any(f[2] is None for f in obs['frames']) else hx(obs['str']) if 'str' in obs else 'X' + obs['str_exc']
-            # ParsedException.source_file is not something the statement speaks about: not compared
-            out = 'ok n=%d %s | %s %s | %s' % (len(obs['frames']), fr, hx(obs['type']), hx(obs['msg']), s)
+        # the model is a function of the text: a later parse of the same text that differs from the first one (after
+        # the caller edited the earlier result) is shown instead of the first
+        out = self._render_pe(obs.get('again', obs))
         if k == 't':
             # wfc: the model's text-level predicate WFtext accepts every text generated from well-formed data
             out += ' | wf=%d gen=1 wfc=1' % (1 if self.wf_case(case) else 0)
@@ -1619,7 +2013,11 @@ class C16(Property):
         st = self.stats
         st['kind_' + k] = st.get('kind_' + k, 0) + 1
         if k == 'r':
-            # arbitrary text: from_string either returns or raises the documented ValueError
+            # arbitrary text: from_string either returns or raises the documented ValueError (a later parse of the
+            # same text that behaves differently is left to the correspondence: the model is a function of the text)
+            ag = obs.get('again') or {}
+            if 'exc' in ag and ag['exc'] != 'ValueError':
+                return Failure('raises', 'from_string raised %s on %r (parse #%d of this text)' % (ag['exc'], case['text'][:300], obs['again_no']))
             if 'exc' in obs:
                 st['raw_' + obs['exc']] = st.get('raw_' + obs['exc'], 0) + 1
                 if obs['exc'] != 'ValueError':
@@ -1632,29 +2030,47 @@ class C16(Property):
             if not self.in_statement(case):
                 st['text_outside_statement'] = st.get('text_outside_statement', 0) + 1
                 return None
-            text = self.std_text(case)
-            st['text_frames_%s' % min(len(case['frames']), 5)] = st.get('text_frames_%s' % min(len(case['frames']), 5), 0) + 1
-            if any(f[3] is None for f in case['frames'][-1:]):
-                st['text_last_frame_without_source'] = st.get('text_last_frame_without_source', 0) + 1
-            if '\n' in case['msg']:
-                st['text_multiline_msg'] = st.get('text_multiline_msg', 0) + 1
-            if 'exc' in obs:
-                return Failure('raises', 'from_string raised %s on %r' % (obs['exc'], text[:300]))
-            want = [[f[0], f[1], f[2], f[3] or ''] for f in case['frames']]
-            got = [[f[0], str(f[1]), f[2], f[3]] for f in obs['frames']]      # a line number may be a str or an int
-            if got != want:
-                return Failure('fields', 'frames parsed as %r, text says %r' % (obs['frames'], want))
-            if obs['type'] != case['type'] or obs['msg'] != case['msg']:
-                return Failure('fields', 'exception parsed as (%r, %r), text says (%r, %r)'
-                               % (obs['type'], obs['msg'], case['type'], case['msg']))
-            if 'str' not in obs:
-                return Failure('raises', 'to_string raised %s' % obs.get('str_exc'))
-            exp = self.std_text(case, anchors=False)
-            if obs['str'] != exp:
-                return Failure('roundtrip', 'to_string() = %r, text (markers and final newline aside) = %r' % (obs['str'], exp))
-            self._nt = len(case['frames']) > 0
-            return None
-        # live exception
+            if case.get('pre'):
+                st['text_with_history'] = st.get('text_with_history', 0) + 1
+            f = self._oracle_text(case, obs)
+            if f is None and 'again' in obs:
+                # the same text parsed once more, after the caller edited the result of the earlier parse: judged
+                # exactly like the first parse
+                f2 = self._oracle_text(case, obs['again'], count=False)
+                if f2 is not None:
+                    self._nt = False
+                    return Failure('reparse', 'parse #%d of the same text (the caller edited the frames / dicts of the earlier '
+                                   'results in between): %s' % (obs['again_no'], f2.what))
+            return f
+        return self._oracle_live(case, obs)
+
+    def _oracle_text(self, case, obs, count=True):
+        st = self.stats if count else {}
+        text = self.std_text(case)
+        st['text_frames_%s' % min(len(case['frames']), 5)] = st.get('text_frames_%s' % min(len(case['frames']), 5), 0) + 1
+        if any(f[3] is None for f in case['frames'][-1:]):
+            st['text_last_frame_without_source'] = st.get('text_last_frame_without_source', 0) + 1
+        if '\n' in case['msg']:
+            st['text_multiline_msg'] = st.get('text_multiline_msg', 0) + 1
+        if 'exc' in obs:
+            return Failure('raises', 'from_string raised %s on %r' % (obs['exc'], text[:300]))
+        want = [[f[0], f[1], f[2], f[3] or ''] for f in case['frames']]
+        got = [[f[0], str(f[1]), f[2], f[3]] for f in obs['frames']]      # a line number may be a str or an int
+        if got != want:
+            return Failure('fields', 'frames parsed as %r, text says %r' % (obs['frames'], want))
+        if obs['type'] != case['type'] or obs['msg'] != case['msg']:
+            return Failure('fields', 'exception parsed as (%r, %r), text says (%r, %r)'
+                           % (obs['type'], obs['msg'], case['type'], case['msg']))
+        if 'str' not in obs:
+            return Failure('raises', 'to_string raised %s' % obs.get('str_exc'))
+        exp = self.std_text(case, anchors=False)
+        if obs['str'] != exp:
+            return Failure('roundtrip', 'to_string() = %r, text (markers and final newline aside) = %r' % (obs['str'], exp))
+        self._nt = len(case['frames']) > 0
+        return None
+
+    def _oracle_live(self, case, obs):
+        st = self.stats
         if 'skip' in obs:
             st['live_skipped'] = st.get('live_skipped', 0) + 1
             return None
@@ -1666,6 +2082,11 @@ class C16(Property):
         for ln in case['links']:
             key = 'live_link_' + ln['kind'] + ('_' + ln.get('how', 'as_e') if ln['kind'] == 'reraise' else '')
             st[key] = st.get(key, 0) + 1
+        wk = obs['walk']
+        if any(a[:3] == b[:3] and a[5] != b[5] for a, b in zip(wk, wk[1:])):
+            st['live_neighbours_differ_in_lasti_only'] = st.get('live_neighbours_differ_in_lasti_only', 0) + 1
+        if any(w[0].lower().endswith(('.pyc', '.pyo')) for w in wk):
+            st['live_bytecode_file_name'] = st.get('live_bytecode_file_name', 0) + 1
         fids = [w[3] for w in obs['walk']]
         if len(set(fids)) < len(fids):
             st['live_frame_listed_more_than_once'] = st.get('live_frame_listed_more_than_once', 0) + 1
@@ -1728,6 +2149,21 @@ class C16(Property):
         if xf != sf or not self._same(obs['cei'], std, fl, False):
             return Failure('format' if xf == sf else 'frames', 'ContextualExceptionInfo: frames %r, text %r; interpreter: %r, %r'
                            % (xf, obs['cei'], sf, std))
+        if obs.get('re'):
+            label, got, want = obs['re'][0]
+            return Failure('reread', '%s = %s after the caller edited the values it had been handed (to_dict() results, the '
+                           'frames list and Callpoints of another object); before: %s' % (label, got, want))
+        if case.get('af'):
+            st['live_argform_' + case['af']] = st.get('live_argform_' + case['af'], 0) + 1
+        if case.get('late'):
+            st['live_lifetime'] = st.get('live_lifetime', 0) + 1
+            if 'late' not in obs:
+                return Failure('raises', 'TracebackInfo.get_formatted() raised %s after the exception and its frames were gone' % obs.get('late_exc'))
+            want = obs['ei'][:len(obs['ei']) - len(obs['ei_only'])]
+            if obs['late'] != want or obs['late_frames'] != obs['ei_frames']:
+                return Failure('lifetime', 'the TracebackInfo of an ExceptionInfo, first read after the exception, its traceback and the '
+                               'frames were gone: %r, frames %r; while they were alive: %r, %r'
+                               % (obs['late'], obs['late_frames'], want, obs['ei_frames']))
         # the interpreter's own text through the parser (first clause on real texts)
         p = obs['parsed']
         if not self._parsed_ok(p, obs):
@@ -1892,6 +2328,12 @@ class C16(Property):
     # ------------------------------------------------------------------ shrinking
     def shrink(self, case):
         k = case['k']
+        if k in 'rt' and case.get('pre'):
+            pre = case['pre']
+            yield {k_: v for k_, v in case.items() if k_ != 'pre'}
+            for i in range(len(pre)):
+                if len(pre) > 1:
+                    yield dict(case, pre=pre[:i] + pre[i + 1:])
         if k == 'r':
             t = case['text']
             ls = t.split('\n')
@@ -1928,7 +2370,7 @@ class C16(Property):
         for i in range(len(links)):
             yield dict(case, links=links[:i] + links[i + 1:])
         for i, ln in enumerate(links):
-            if ln['kind'] in ('rec', 'rec2', 'recalt') and ln.get('n', 0) > 0:
+            if ln['kind'] in self.REC_KINDS and ln.get('n', 0) > 0:
                 yield dict(case, links=links[:i] + [dict(ln, n=ln['n'] - 1)] + links[i + 1:])
             if ln['kind'] != 'call':
                 yield dict(case, links=links[:i] + [{'m': ln['m'], 'kind': 'call'}] + links[i + 1:])
@@ -1943,8 +2385,9 @@ class C16(Property):
             yield {k: v for k, v in case.items() if k != 'tblimit'}
         if case.get('skip'):
             yield {k: v for k, v in case.items() if k != 'skip'}
-        if case.get('seq'):
-            yield {k: v for k, v in case.items() if k != 'seq'}
+        for key in ('seq', 'af', 'pf', 'late'):
+            if case.get(key):
+                yield {k: v for k, v in case.items() if k != key}
         pri = case.get('prior') or []
         for i in range(len(pri)):
             rest = pri[:i] + pri[i + 1:]
@@ -1971,7 +2414,7 @@ class C16(Property):
                 yield dict(case, mods=case['mods'][:i] + [{'file': '/bv/c16/m%d.py' % i, 'name': 'bvm', 'reg': 'cache'}]
                            + case['mods'][i + 1:])
             if m['reg'] == 'disk':
-                for key, simple in (('junk', None), ('ldr', 0), ('gone', 0), ('prime', 'getlines'), ('v1', 'retag'), ('mt', 'differ'),
+                for key, simple in (('decoy', None), ('junk', None), ('ldr', 0), ('gone', 0), ('prime', 'getlines'), ('v1', 'retag'), ('mt', 'differ'),
                                     ('file', 'disk%d.py' % i), ('name', 'bvm')):
                     if m.get(key) != simple:
                         yield mod(**{key: simple})
